@@ -687,7 +687,7 @@ MANIFEST = dict(
           "freedom are proved by `decide` over an access table (member x read/write x lock scope x atomic, per method and role) that is "
           "regenerated from the clang AST of the two headers on every run (lockset_ok, tbuf_methods_atomic, tval_shape_ok; the unfixed "
           "header's race is a proved witness, lockset_unfixed_race). The model is tied to the code by single-threaded op histories and by "
-          "multi-threaded runs (1..8 producers, int/std::string/std::vector/slow-copy payloads) of the real classes under ASan/UBSan and "
+          "multi-threaded runs (1..8 producers, int/std::string/std::vector/slow-copy payloads; pushes and assignments during which the payload's allocation fails) of the real classes under ASan/UBSan and "
           "TSan whose oracle summary is compared with the one the theorems guarantee."),
     note=("Trusted: Lean kernel; axioms propext/Classical.choice/Quot.sound; sequential consistency with atomic mutex-protected sections "
           "in place of the C++ memory model (std::mutex, std::atomic, std::vector meet their specifications); the clang-AST access-table "
